@@ -1731,7 +1731,8 @@ class UTPM(Ring, RawAlgorithmsMixIn):
             # try to infer the dtype from x
             dtype= x.dtype
 
-            if dtype==int:
+            if numpy.issubdtype(dtype, numpy.integer) or dtype==bool:
+                # any integer dtype (int32, uint8, ...), not only the default int
                 dtype=float
 
 
@@ -1785,7 +1786,8 @@ class UTPM(Ring, RawAlgorithmsMixIn):
             # try to infer the dtype from x
             dtype= x.dtype
 
-            if dtype==int:
+            if numpy.issubdtype(dtype, numpy.integer) or dtype==bool:
+                # any integer dtype (int32, uint8, ...), not only the default int
                 dtype=float
 
 
@@ -1855,6 +1857,9 @@ class UTPM(Ring, RawAlgorithmsMixIn):
         """
 
         x = numpy.ravel(x)
+        if numpy.issubdtype(x.dtype, numpy.integer) or x.dtype==bool:
+            # an integer valued point: the Taylor coefficients are not integers
+            x = x.astype(float)
 
         # generate directions
         N = x.size
@@ -1922,7 +1927,8 @@ class UTPM(Ring, RawAlgorithmsMixIn):
             # try to infer the dtype from x
             dtype= x.dtype
 
-            if dtype==int:
+            if numpy.issubdtype(dtype, numpy.integer) or dtype==bool:
+                # any integer dtype (int32, uint8, ...), not only the default int
                 dtype=float
 
         N = numpy.size(x)
